@@ -196,3 +196,16 @@ Fixpoint check_words (o : Z) (H : hist) (js : list Z) (es : list (list Z)) : boo
   | j :: js', e :: es' => spec_words_entry o H j e && check_words o H js' es'
   | _, _ => false
   end.
+
+(** ---- two TailBitmaps alive in one process, calls interleaved (op bitmap.TailBitmap/pair) ----
+
+    Each call names the object it goes to ([false] = A, [true] = B).  The two objects are independent:
+    the calls and observations of each object, taken alone, must be an acceptable history of
+    NewTailBitmap(oA) resp. NewTailBitmap(oB). *)
+Definition sel {A} (w : bool) (l : list (bool * A)) : list A :=
+  map snd (filter (fun x => Bool.eqb (fst x) w) l).
+
+Definition check_pair (oa ob : Z) (cs : list (bool * pop)) (obs : list (Z * list Z * Z)) : bool :=
+  (length cs =? length obs)%nat
+  && check_history oa (sel false cs) (sel false (combine (map fst cs) obs))
+  && check_history ob (sel true cs) (sel true (combine (map fst cs) obs)).
